@@ -13,6 +13,9 @@ use serde_json::{json, Value};
 pub struct SeqCase {
     /// (elevation number, run length) pairs; adjacent pairs may carry the same number
     pub runs: Vec<(u8, u16)>,
+    /// identity mode of the generated radials (see `salted_radial`)
+    #[serde(default)]
+    pub mode: u8,
 }
 
 impl SeqCase {
@@ -66,12 +69,47 @@ pub fn tagged_radial(tag: i64, elevation: u8, azimuth_number: u16) -> Radial {
     )
 }
 
+/// A radial for identity mode `mode`.  Which field makes a radial distinct from every other one rotates
+/// with the mode, and the remaining fields collide often, so that code keyed on any *proper subset* of the
+/// fields (e.g. azimuth number + timestamp) is confronted with distinct radials that agree on that subset:
+///   0  timestamp = tag (all other fields derived from it)
+///   1  timestamp constant; azimuth angle is the distinguishing field
+///   2  timestamp in {0,1}, azimuth angle in three values; elevation angle distinguishes
+///   3  timestamp in {0,1}, both angles constant; the reflectivity gate bytes distinguish
+///   4  timestamp constant, angles constant, no moments; azimuth spacing distinguishes
+pub fn salted_radial(tag: i64, elevation: u8, azimuth_number: u16, mode: u8) -> Radial {
+    let salt = f32::from_bits(0x4000_0000 + tag as u32); // distinct finite floats
+    let status = if tag % 2 == 0 { RadialStatus::IntermediateRadialData } else { RadialStatus::ElevationStart };
+    match mode % 5 {
+        0 => tagged_radial(tag, elevation, azimuth_number),
+        1 => Radial::new(1_700_000_000_000, azimuth_number, salt, 0.5, status, elevation, 0.5, None, None, None, None, None, None, None),
+        2 => Radial::new(tag % 2, azimuth_number, (tag % 3) as f32 * 0.5, 0.5, status, elevation, salt, None, None, None, None, None, None, None),
+        3 => Radial::new(
+            tag % 2,
+            azimuth_number,
+            1.5,
+            0.5,
+            status,
+            elevation,
+            0.5,
+            Some(MomentData::from_fixed_point(2.0, 66.0, (tag as u32).to_le_bytes().to_vec())),
+            None,
+            None,
+            None,
+            None,
+            None,
+            None,
+        ),
+        _ => Radial::new(1_700_000_000_000, azimuth_number, 1.5, salt, RadialStatus::IntermediateRadialData, elevation, 0.5, None, None, None, None, None, None, None),
+    }
+}
+
 pub fn check_grouping(case: &SeqCase) -> Check {
     let elevs = case.expand();
     let input: Vec<Radial> = elevs
         .iter()
         .enumerate()
-        .map(|(i, e)| tagged_radial(i as i64, *e, (i % 720) as u16))
+        .map(|(i, e)| salted_radial(i as i64, *e, if case.mode % 5 == 0 { (i % 720) as u16 } else { (i % 4) as u16 }, case.mode))
         .collect();
     let reference = input.clone();
     let sweeps = no_panic("Sweep::from_radials", || Sweep::from_radials(input))?;
@@ -96,23 +134,19 @@ pub fn check_grouping(case: &SeqCase) -> Check {
             flat.push(r);
         }
     }
-    let got_tags: Vec<i64> = flat.iter().map(|r| r.collection_timestamp()).collect();
-    let want_tags: Vec<i64> = (0..elevs.len() as i64).collect();
-    if got_tags != want_tags {
-        let detail = if got_tags.len() < want_tags.len() {
-            format!(
-                "{} radials in, {} out: radials lost (first missing tag {})",
-                want_tags.len(),
-                got_tags.len(),
-                want_tags.iter().find(|t| !got_tags.contains(t)).copied().unwrap_or(-1)
-            )
-        } else {
-            format!("{} radials in, {} out; order/duplication differs", want_tags.len(), got_tags.len())
-        };
-        return Err(Fail::new("grouping:concatenation-differs", detail));
+    if flat.len() != reference.len() {
+        let first_missing = reference.iter().position(|w| !flat.iter().any(|g| *g == w)).map(|i| i as i64).unwrap_or(-1);
+        return Err(Fail::new(
+            "grouping:concatenation-differs",
+            format!("{} radials in, {} out (identity mode {}): first input radial not found in the output: index {}", reference.len(), flat.len(), case.mode % 5, first_missing),
+        ));
     }
-    for (g, w) in flat.iter().zip(reference.iter()) {
-        ensure!(*g == w, "grouping:radial-altered", "radial tag {} altered", w.collection_timestamp());
+    for (i, (g, w)) in flat.iter().zip(reference.iter()).enumerate() {
+        if *g != w {
+            let moved = reference.iter().any(|x| *g == x);
+            let sig = if moved { "grouping:concatenation-differs" } else { "grouping:radial-altered" };
+            return Err(Fail::new(sig, format!("output radial {} is not input radial {} (identity mode {}; {})", i, i, case.mode % 5, if moved { "it is another input radial: order/duplication differs" } else { "it equals no input radial" })));
+        }
     }
 
     // maximal runs: adjacent sweeps differ, and the partition equals the run-length model
@@ -139,11 +173,14 @@ pub struct MergeCase {
     pub elev_b: u8,
     pub az_a: Vec<u16>,
     pub az_b: Vec<u16>,
+    /// identity mode of the generated radials (see `salted_radial`)
+    #[serde(default)]
+    pub mode: u8,
 }
 
 pub fn check_merge(case: &MergeCase) -> Check {
     let mk = |base: i64, elev: u8, az: &[u16]| -> Vec<Radial> {
-        az.iter().enumerate().map(|(i, a)| tagged_radial(base + i as i64, elev, *a)).collect()
+        az.iter().enumerate().map(|(i, a)| salted_radial(base + i as i64, elev, *a, case.mode)).collect()
     };
     let ra = mk(0, case.elev_a, &case.az_a);
     let rb = mk(1_000_000, case.elev_b, &case.az_b);
@@ -161,50 +198,65 @@ pub fn check_merge(case: &MergeCase) -> Check {
         Err(e) => return Err(Fail::new("merge:equal-elevations-rejected", format!("{:?}", e))),
     };
     ensure_eq!(merged.elevation_number(), case.elev_a, "merge:elevation-number");
-    let got: Vec<(u16, i64)> = merged.radials().iter().map(|r| (r.azimuth_number(), r.collection_timestamp())).collect();
-    let want: Vec<(u16, i64)> = expected.iter().map(|r| (r.azimuth_number(), r.collection_timestamp())).collect();
-    if got != want {
-        let mut gs = got.clone();
-        let mut ws = want.clone();
-        gs.sort();
-        ws.sort();
-        let sig = if gs != ws { "merge:not-the-union" } else { "merge:order-or-tie-order" };
-        return Err(Fail::new(sig, format!("got {:?} want {:?}", &got[..got.len().min(12)], &want[..want.len().min(12)])));
-    }
-    for (g, w) in merged.radials().iter().zip(expected.iter()) {
-        ensure!(g == w, "merge:radial-altered", "radial tag {} altered", w.collection_timestamp());
+    let got = merged.radials();
+    if got.len() != expected.len() || got.iter().zip(expected.iter()).any(|(g, w)| g != w) {
+        // same multiset?  (quadratic, only on failure)
+        let mut pool: Vec<&Radial> = expected.iter().collect();
+        let mut union = got.len() == expected.len();
+        for g in got.iter() {
+            match pool.iter().position(|w| *w == g) {
+                Some(i) => {
+                    pool.swap_remove(i);
+                }
+                None => union = false,
+            }
+        }
+        let sig = if union { "merge:order-or-tie-order" } else { "merge:not-the-union" };
+        let brief = |v: &[Radial]| v.iter().take(12).map(|r| (r.azimuth_number(), r.collection_timestamp())).collect::<Vec<_>>();
+        return Err(Fail::new(
+            sig,
+            format!("identity mode {}: {} + {} radials in, {} out; got (az, time) {:?} want {:?}", case.mode % 5, case.az_a.len(), case.az_b.len(), got.len(), brief(got), brief(&expected)),
+        ));
     }
     Ok(())
 }
 
 fn seq_strategy() -> impl Strategy<Value = SeqCase> {
+    (seq_shapes(), 0u8..5).prop_map(|(mut c, mode)| {
+        c.mode = mode;
+        c
+    })
+}
+
+fn seq_shapes() -> impl Strategy<Value = SeqCase> {
     let elev = || prop_oneof![5 => 0u8..=4, 3 => any::<u8>(), 1 => Just(0u8), 1 => Just(255u8)];
     let len = || prop_oneof![6 => 1u16..=4, 3 => 1u16..=40, 1 => 1u16..=720];
     prop_oneof![
-        1 => Just(SeqCase { runs: vec![] }),
+        1 => Just(SeqCase { runs: vec![], mode: 0 }),
         // all equal
-        1 => (elev(), len()).prop_map(|(e, n)| SeqCase { runs: vec![(e, n)] }),
+        1 => (elev(), len()).prop_map(|(e, n)| SeqCase { runs: vec![(e, n)], mode: 0 }),
         // single radial
-        1 => elev().prop_map(|e| SeqCase { runs: vec![(e, 1)] }),
+        1 => elev().prop_map(|e| SeqCase { runs: vec![(e, 1)], mode: 0 }),
         // runs of random length
-        6 => vec((elev(), len()), 1..=12).prop_map(|runs| SeqCase { runs }),
+        6 => vec((elev(), len()), 1..=12).prop_map(|runs| SeqCase { runs, mode: 0 }),
         // strictly changing, every run of length 1
-        2 => vec(any::<u8>(), 1..=60).prop_map(|es| SeqCase { runs: es.into_iter().map(|e| (e, 1)).collect() }),
+        2 => vec(any::<u8>(), 1..=60).prop_map(|es| SeqCase { runs: es.into_iter().map(|e| (e, 1)).collect(), mode: 0 }),
         // a,b,a,b (SAILS-like revisits)
         2 => (elev(), elev(), len(), 2usize..=10).prop_map(|(a, b, n, k)| SeqCase {
-            runs: (0..k).map(|i| (if i % 2 == 0 { a } else { b }, n)).collect()
+            runs: (0..k).map(|i| (if i % 2 == 0 { a } else { b }, n)).collect(),
+            mode: 0,
         }),
         // ends in a run of one / starts with a run of one
         2 => (vec((elev(), len()), 0..=6), elev()).prop_map(|(mut runs, e)| {
             runs.push((e, 1));
-            SeqCase { runs }
+            SeqCase { runs, mode: 0 }
         }),
         2 => (vec((elev(), len()), 0..=6), elev()).prop_map(|(mut runs, e)| {
             runs.insert(0, (e, 1));
-            SeqCase { runs }
+            SeqCase { runs, mode: 0 }
         }),
         // long: up to 2000 radials
-        1 => vec((elev(), 100u16..=720), 1..=6).prop_map(|runs| SeqCase { runs }),
+        1 => vec((elev(), 100u16..=720), 1..=6).prop_map(|runs| SeqCase { runs, mode: 0 }),
     ]
 }
 
@@ -217,17 +269,18 @@ fn merge_strategy() -> impl Strategy<Value = MergeCase> {
             1 => Just(Vec::new()),
         ]
     };
-    (any::<u8>(), prop_oneof![3 => Just(None), 1 => any::<u8>().prop_map(Some)], az(), az()).prop_map(|(ea, eb, az_a, az_b)| MergeCase {
+    (any::<u8>(), prop_oneof![3 => Just(None), 1 => any::<u8>().prop_map(Some)], az(), az(), 0u8..5).prop_map(|(ea, eb, az_a, az_b, mode)| MergeCase {
         elev_a: ea,
         elev_b: eb.unwrap_or(ea),
         az_a,
         az_b,
+        mode,
     })
 }
 
 pub fn run(ctx: &Ctx, rep: &mut Report) {
     rep.trust("reference models: maximal run-length grouping and std's stable sort of (first ++ second) by azimuth number");
-    rep.assume("radial identity is carried in collection_timestamp (a unique tag per generated radial)");
+    rep.assume("radials are compared as whole values (PartialEq); which field distinguishes one generated radial from another rotates over five identity modes (timestamp, azimuth angle, elevation angle, gate bytes, azimuth spacing) while the other fields collide");
 
     // exhaustive: all sequences of length <= 7 over three elevation values (3280 sequences)
     {
@@ -242,7 +295,7 @@ pub fn run(ctx: &Ctx, rep: &mut Report) {
                     seq.push([0u8, 7, 255][c % 3]);
                     c /= 3;
                 }
-                let case = SeqCase { runs: seq.iter().map(|e| (*e, 1)).collect() };
+                let case = SeqCase { runs: seq.iter().map(|e| (*e, 1)).collect(), mode: (code % 5) as u8 };
                 n += 1;
                 let r = runs(&seq);
                 if r.len() >= 2 || r.last().map(|x| x.2 - x.1 == 1).unwrap_or(false) {
